@@ -420,7 +420,9 @@ def run(prog, rep):
     tod = Rd.lookup_method("to_odml")
     gt = build_cfg(tod)
     from ..astutil import atoms_at as _atoms_at
-    apps = [n for n in gt.nodes if any(unparse(c.func) == "%s.docs.append" % tod.params[0] for r in n.expr_roots() for c in calls_in(r))]
+    tx4 = Expander(tod, gt, only_locations=True)
+    apps = [n for n in gt.nodes if any(isinstance(c.func, ast.Attribute) and c.func.attr == "append" and
+                                       tx4.text(c.func.value, n) == "%s.docs" % tod.params[0] for r in n.expr_roots() for c in calls_in(r))]
     rep.floor("READ-4", len(apps), 1, "self.docs.append in to_odml")
     for n in apps:
         ats = [t for t, _, _ in _atoms_at(gt, n) if re.search(r"\b%s\.docs\b" % re.escape(tod.params[0]), t)]
